@@ -68,7 +68,8 @@ def classify(call, args, env, L):
 def run(R):
     repo = R.repo
     impls = repo.implementations('SpawnBase', 'read_nonblocking')
-    units = list(impls) + [repo.func('_async_w_await:PatternWaiter.data_received')]
+    units = list(impls) + [repo.func('_async_w_await:PatternWaiter.data_received'),
+                           repo.func('pty_spawn:spawn.__interact_copy')]          # interact() logs what the child wrote: the same decoder discipline
     with R.clause('D1', 'FLOW', floor=12, desc='raw bytes reach delivery sinks only through the incremental decoder, exactly once') as c:
         for f in units:
             check_taint(c, f)
